@@ -249,6 +249,12 @@ func candidates(s *scn.Scenario, stage int) []func() *scn.Scenario {
 			if st.N > 1 {
 				add(func(c *scn.Scenario) { c.Steps[i].N = 1 })
 			}
+			if st.Rep > 0 {
+				rep := st.Rep
+				add(func(c *scn.Scenario) { c.Steps[i].Rep = 0 })
+				add(func(c *scn.Scenario) { c.Steps[i].Rep = rep / 2 })
+				add(func(c *scn.Scenario) { c.Steps[i].Rep = rep - 1 })
+			}
 			if st.Src != "" && st.Src != "const" {
 				add(func(c *scn.Scenario) { c.Steps[i].Src = "const" })
 			}
@@ -258,6 +264,12 @@ func candidates(s *scn.Scenario, stage int) []func() *scn.Scenario {
 				ti, i := ti, i
 				if st.Fail {
 					add(func(c *scn.Scenario) { c.Tasks[ti][i].Fail = false })
+				}
+				if st.Rep > 0 {
+					rep := st.Rep
+					add(func(c *scn.Scenario) { c.Tasks[ti][i].Rep = 0 })
+					add(func(c *scn.Scenario) { c.Tasks[ti][i].Rep = rep / 2 })
+					add(func(c *scn.Scenario) { c.Tasks[ti][i].Rep = rep - 1 })
 				}
 				if st.N > 0 {
 					add(func(c *scn.Scenario) { c.Tasks[ti][i].N = 0 })
